@@ -400,6 +400,11 @@ def chunks(tier, seed):
     for a in range(len(WIDE)):
         out.append(('W', (a,), 2))
 
+    # every entry of the wide alphabet in every place where its operation
+    # is in order, followed by each valid call
+    for a in range(0, len(WIDE), 8):
+        out.append(('X', (a,), 8))
+
     if la > 3:
         # one step deeper over the valid variants and every third
         # invalid / unwritable one
@@ -410,8 +415,45 @@ def chunks(tier, seed):
     return out
 
 
+CONTEXTS = {
+    'change': [[]],
+    'file': [[['change', {}]]],
+    'preamble': [[], [['change', {}]], [['change', {'encoding': 'utf-16'}]]],
+    'meta': [[], [['change', {}]], [['change', {}], ['file', {}]],
+             [['change', {}], ['preamble', {'text': 'p'}]]],
+    'diff': [[['change', {}], ['file', {}], ['meta', {'metadata': {'k': 1}}]],
+             [['change', {}], ['file', {'encoding': 'latin-1'}],
+              ['meta', {'metadata': {'k': 1}}]]],
+}
+
+
+def run_context_chunk(chunk, st):
+    _which, (start,), count = chunk
+    evals = nontrivial = 0
+    sample = None
+
+    for w in WIDE[start:start + count]:
+        for prefix in CONTEXTS[w[0]]:
+            for cont in V2:
+                calls = prefix + [w] + [cont]
+                res, nacc, nrej, rta = judge(calls)
+                evals += 1
+                nontrivial += bool(rta)
+
+                if sample is None and rta:
+                    sample = {'calls': calls}
+
+                if res is not None:
+                    st.violation(res[0], res[1], {'calls': calls})
+
+    st.bulk(evals, nontrivial, sample=sample)
+
+
 def run_chunk(chunk, st):
     which, head, maxlen = chunk
+
+    if which == 'X':
+        return run_context_chunk(chunk, st)
     alphabet = {'V': V, 'A': ALL, 'C': CORE, 'W': WIDE}[which]
     evals = 0
     nontrivial = 0
